@@ -59,7 +59,10 @@ def build_kernel(variant="plain"):
     so = outdir / "set_operations.so"
     if so.exists():
         return so
-    outdir.mkdir(parents=True, exist_ok=True)
+    BUILD.mkdir(parents=True, exist_ok=True)
+    import tempfile, shutil
+    final = outdir
+    outdir = Path(tempfile.mkdtemp(prefix="tmp-", dir=str(BUILD)))   # private build dir: parallel checks may build at once
     pyx = outdir / "set_operations.pyx"
     pyx.write_text(src)
     cfile = outdir / "set_operations.c"
@@ -70,7 +73,7 @@ def build_kernel(variant="plain"):
     if res.num_errors or not cfile.exists():
         raise MachineryFailure("cython failed on %s" % pyx)
     inc = ["-I" + sysconfig.get_paths()["include"], "-I" + numpy.get_include()]
-    tmp = outdir / "set_operations.tmp.so"
+    tmp = outdir / "set_operations.so"
     if variant == "asan":
         cmd = ["clang", "-shared", "-fPIC", "-O1", "-g", "-fsanitize=address", "-fno-omit-frame-pointer"]
     else:
@@ -79,8 +82,11 @@ def build_kernel(variant="plain"):
     p = subprocess.run(cmd, capture_output=True, text=True)
     if p.returncode != 0:
         raise MachineryFailure("compiler failed: %s\n%s" % (" ".join(cmd), p.stderr[-2000:]))
-    os.replace(tmp, so)
-    return so
+    try:
+        os.rename(outdir, final)                 # atomic publish; loser of a race just discards its copy
+    except OSError:
+        shutil.rmtree(outdir, ignore_errors=True)
+    return final / "set_operations.so"
 
 
 def load_catii(variant="plain"):
